@@ -215,6 +215,13 @@ CHECKS = {
               'Pairs and triples of encoder instances differing in preset (reference-count classes), bit depth, asm level, thread count, film grain and size, encoder + decoder, decoder + decoder, 128- vs 64-superblock encoders run simultaneously and with staggered starts, once with creation / initialisation / teardown serialised by the application and once fully concurrent; '
               'every instance must give the packets, recon and decoded pictures of its solo run. The writable .data/.bss objects of both libraries must stay within the reviewed list (238 besides the 781 dispatched pointers).'),
         note=('Partial: interference is exhibited by the runs only; TSan is not used. Known findings D10 (128- and 64-superblock encoders share block geometry: crash), D39 (two decoders share the allocation registry: crash), D40 (concurrent creation / teardown of encoders races on process-wide state).')),
+    'C11': dict(
+        category='other', design_ref='DESIGN.md §6 C11',
+        technique='Sanitizer sessions of the real encoder over configurations x contents x sizes + large incompressible encodes + Coq theorems on the bitstream buffer size regenerated from the source',
+        text=('c11_bitstream_buffer_covers_small_pictures: the size of the per-picture / per-tile bitstream buffers (EB_OUTPUTSTREAMBUFFERSIZE_MACRO translated from EbDefinitions.h on every run) is at least 3 bytes per luma sample for every area up to 666 666 samples; '
+              'c11_bitstream_buffer_too_small_refuted: for 1600x900 it is smaller than the raw 8-bit picture (finding D24, replayed on the real encoder: heap overflow and crash with noise at qp 0). '
+              'Full sessions (init .. EOS .. teardown) run under ASan+UBSan and a watchdog: noise at qp 0-4 in 8 and 10 bit, extremes at qp 63, sizes that are not multiples of 8, flat, screen content, 128 superblocks, tiles, film grain, superres, portrait, VBR; any report, crash, hang, missing or error-flagged packet is a violation.'),
+        note=('Partial: memory safety is decided by the runs only; the 3-bytes-per-sample margin is a measured constant. Known findings D24 (fixed-size bitstream buffer), D42 (ME lambda tables have 52 entries, indexed with qp up to 63). Fixed in /repo: stack under-read in perform_md_reference_pruning.')),
 }
 
 NOT_BUILT_REASON = 'check not built yet in this development (work in progress); no claim is made'
